@@ -566,10 +566,14 @@ def check(ctx):
              if merges and e.idx < merges[0].idx]
     for e in early:
         ats = [a for a in tm.atoms(e.live) if a.op == "cmp"]
+        import re as _re
         vers = [a for a in ats if any(
             (x.op == "global" and x.args[0].endswith("__version__")) or
             (tm.is_const(x) and isinstance(x.args[1], str) and
-             x.args[1].startswith("v") and x.args[1][1:2].isdigit())
+             _re.fullmatch(r"v?\d+\.\d+(\.\w+)*", x.args[1])) or
+            (is_call_to(x, ".read", ".read_text") and any(
+                y.op == "global" and "VERSION" in y.args[0]
+                for y in x.walk()))
             for x in a.walk())]
         same = [a for a in vers if a.args[0] in ("Eq", "NotEq") and
                 any(is_call_to(x, ".read", ".read_text")
